@@ -109,6 +109,8 @@ type Engine struct {
 	side       map[string]interface{} // per-path scratch for models
 	stack      []string
 	seeded     bool
+	cur        ssa.Instruction
+	bugStack   []string
 	usedFresh  bool // a stub made a nondeterministic choice on this path
 	doms       map[string]*simpleDom
 	pcSet      map[string]bool
@@ -169,6 +171,7 @@ func (e *Engine) resetPath(prefix []bool) {
 	e.doms = map[string]*simpleDom{}
 	e.pcSet = map[string]bool{}
 	e.usedFresh = false
+	e.bugStack = nil
 }
 
 func (e *Engine) obl(id, kind string) *Obligation {
@@ -266,6 +269,7 @@ func (e *Engine) runPath(fn *ssa.Function, prefix []bool) {
 				fmt.Fprintf(os.Stderr, "path %d: Go panic: %s at %s\n", e.stats.Paths, x.msg, x.where)
 			}
 		default:
+			fmt.Fprintf(os.Stderr, "ENGINE BUG at %s: %v\n  stack: %s\n", e.posOf(e.cur), r, strings.Join(e.bugStack, " > "))
 			panic(r)
 		}
 	}()
